@@ -174,6 +174,11 @@ let () =
     | id :: "A" :: "lzw" :: [sz] ->
       let t = int_of_z Charge.lzw_table_bytes and n = int_of_string sz in
       Printf.printf "%s %s\n" id (string_of_bool (t <= n && n <= t + 512))
+    | id :: "F" :: k :: h :: [sc] ->
+      let kind = match k with "0" -> DCTFrames.FBaseline | "1" -> DCTFrames.FExtended | "2" -> DCTFrames.FProgressive | _ -> DCTFrames.FUnsupported in
+      let scans = if sc = "-" then [] else Stdlib.List.map (fun c -> c = 'a') (Stdlib.List.init (Stdlib.String.length sc) (Stdlib.String.get sc)) in
+      let (rows, ok) = DCTFrames.decode_frame kind (z_of_string h) scans in
+      Printf.printf "%s %s %s\n" id (zs rows) (string_of_bool ok)
     | id :: "B2" :: [n] ->
       Printf.printf "%s %s\n" id (zs (Gen_C08dct.jbig2_workLimit (z_of_string n)))
     | id :: "W" :: [sc] ->
